@@ -135,8 +135,8 @@ pub fn fault_enum(w: &World, p: usize, label: &str, deterministic: bool, pairs: 
                         // deletion): when the second call fails the first has been made. The
                         // property asks that the member is unchanged and that the retry ends like
                         // the fault-free run -- which the retry comparison below decides.
-                        if label == "write_to_storage" {
-                            d.retain(|x| x != "stored_group_state");
+                        if label == "write_to_storage" && fc == "key_package.delete" {
+                            d.retain(|x| x != "stored_group_state" && x != "pending_epoch_inserts" && !x.starts_with("epoch_record"));
                         }
                         if !d.is_empty() {
                             ctx.violation(
@@ -489,15 +489,132 @@ pub fn meta(tier: &str) -> Meta {
     }
 }
 
+/// write_to_storage spans two stores; when the second call (key package deletion) fails after
+/// the group-state write went through, the retry must leave the *shipped* stores with the same
+/// history as a fault-free run. Run on the tee (in-memory + SQLite + model), from scratch.
+fn shipped_store_write_retry(commits: usize, retention: usize, primary: u8, ctx: &mut Ctx) {
+    use mls_rs::GroupStateStorage;
+    let cfg = WorldCfg { retention, ..Default::default() };
+    let mut w = World::new(cfg, 4);
+    stores::tee_clear();
+    stores::tee_install(T as u32, retention, primary);
+    let label = format!("commits={commits} R={retention} primary={}", if primary == 0 { "in-memory" } else { "sqlite" });
+    ctx.cur_trail = vec![format!("shipped-store write retry: {label}")];
+    ctx.path = vec![];
+    let r = w.run(|w| {
+        let setup = (|| {
+            w.create(0)?;
+            let b = w.commit(0, &CommitSpec { props: vec![Prop::Add(1), Prop::Add(2)], ..Default::default() })?;
+            w.apply(0)?;
+            for p in [1, 2] {
+                w.join(p, &b.out.welcome_messages[0], None)?;
+            }
+            w.gm(T).write_to_storage()?;
+            for _ in 0..commits {
+                let b = w.commit(0, &CommitSpec::default())?;
+                w.process(1, &b.out.commit_message)?;
+                w.process(2, &b.out.commit_message)?;
+                w.apply(0)?;
+            }
+            Ok::<(), MlsError>(())
+        })();
+        if setup.is_err() {
+            crate::engine::machinery("C15 shipped-store scenario could not be set up");
+        }
+        // the key-package deletion (second storage call of the write) fails once
+        stores::peek(T as u32, |s| {
+            s.reset_calls();
+            s.fail_calls.insert(1);
+        });
+        let r1 = w.gm(T).write_to_storage();
+        let reached = stores::peek(T as u32, |s| s.calls.iter().any(|c| c.failed));
+        stores::peek(T as u32, |s| s.reset_calls());
+        ctx.eval();
+        if !reached {
+            ctx.outcome("shipped-retry:fault-not-reached");
+            return;
+        }
+        ctx.goal("shipped-store-write-retry");
+        if r1.is_ok() {
+            ctx.violation("fault-swallowed|write_to_storage|key_package.delete", "write_to_storage returned Ok although the key package deletion failed");
+        }
+        let _ = stores::tee_take_log();
+        match w.gm(T).write_to_storage() {
+            Ok(()) => ctx.outcome("shipped-retry:ok"),
+            Err(e) => {
+                ctx.violation(format!("retry-fails|write_to_storage(shipped stores)|key_package.delete|{}", err_name(&e)), format!("{label}: after the key package deletion failed once, repeating write_to_storage fails: {e:?}"));
+                return;
+            }
+        }
+        // all reads of all three stores must agree (the model received the same calls)
+        let gid = w.group_id.clone();
+        let st = stores::GsStore(T as u32);
+        let _ = st.state(&gid);
+        let _ = st.max_epoch_id(&gid);
+        for e in 0..=w.g(T).current_epoch() {
+            let _ = st.epoch(&gid, e);
+        }
+        for l in stores::tee_take_log() {
+            let kind = l.split(':').next().unwrap_or("").split('(').next().unwrap_or("").to_string();
+            ctx.violation(format!("stored-history-differs-after-retry|{kind}"), format!("{label}: after the retried write the shipped stores disagree with the fault-free history: {l}"));
+        }
+        // and the member keeps working from storage
+        match w.parties[T].client.load_group(&gid) {
+            Ok(mut g) => {
+                if let Ok(b) = w.commit(0, &CommitSpec::default()) {
+                    if let Err(e) = g.process_incoming_message_with_time(b.out.commit_message, time(w.clock)) {
+                        ctx.violation(format!("reloaded-after-retry-cannot-continue|{}", err_name(&e)), format!("{label}: {e:?}"));
+                    } else if let Err(e) = g.write_to_storage() {
+                        ctx.violation(format!("write-after-retry-fails|{}", err_name(&e)), format!("{label}: {e:?}"));
+                    }
+                }
+            }
+            Err(e) => ctx.violation(format!("load-after-retry-fails|{}", err_name(&e)), format!("{label}: {e:?}")),
+        }
+    });
+    stores::tee_clear();
+    if r.is_err() {
+        let (loc, msg, lib) = take_panic();
+        if lib {
+            ctx.violation(format!("panic|{loc}"), format!("library panicked: {msg} [{label}]"));
+        } else {
+            crate::engine::machinery(&format!("harness panic at {loc}: {msg}"));
+        }
+    }
+    ctx.report.traces += 1;
+}
+
 pub fn run(ctx: &mut Ctx) {
     for (i, m) in models(&ctx.tier.clone()).into_iter().enumerate() {
         ctx.model_idx = i;
         explore(&m, ctx);
     }
+    ctx.model_idx = 99;
+    let mut item = 0;
+    for commits in 0..=3 {
+        for retention in [1usize, 2, 3] {
+            for primary in [0u8, 1] {
+                if ctx.mine(item) {
+                    shipped_store_write_retry(commits, retention, primary, ctx);
+                }
+                item += 1;
+            }
+        }
+    }
 }
 
 pub fn replay(ctx: &mut Ctx, path: &[usize]) {
     let ms = models(&ctx.tier.clone());
+    if path[0] == 99 {
+        for commits in 0..=3 {
+            for retention in [1usize, 2, 3] {
+                for primary in [0u8, 1] {
+                    shipped_store_write_retry(commits, retention, primary, ctx);
+                }
+            }
+        }
+        return;
+    }
     let Some(m) = ms.get(path[0]) else { crate::engine::machinery("bad model index") };
     crate::engine::replay(m, ctx, &path[1..]);
 }
